@@ -575,3 +575,46 @@ def lazy_history(rng, length, sids=None):
     g.hist.append((wg.M, []))
     g.hist.append((DROPW, []))
     return g.hist
+
+
+def lazy_purge_history(rng):
+    """C05 through maintain: deferred deletions of entities that own components, and closures queued in
+    the same frame which create entities (taking the indices the merge has just freed), insert for them
+    and look them up; everything is observed after the maintain."""
+    g = Gen(rng)
+    for sid in rng.sample(range(16), rng.randint(1, 3)):
+        g.register(sid)
+    for _ in range(rng.randint(1, 4)):
+        g.hist.append((wg.C, g.comps(3)))
+        g.created(1)
+    for _ in range(rng.randint(1, 3)):
+        victims = rng.sample(g.live, rng.randint(1, len(g.live))) if g.live else []
+        for h in victims:
+            g.hist.append((wg.ED, [h]))
+            g.kill(h)
+        prog = []
+        first_new = g.nh
+        for _ in range(rng.randint(1, 3)):
+            prog.append((wg.C, g.comps(2)) if rng.random() < 0.6 else (wg.EC, []))
+            g.created(1)
+        for h in range(first_new, g.nh):
+            for sid in g.regs:
+                prog.append((GET, [sid, h]))
+        if rng.random() < 0.5:
+            sid = rng.choice(g.regs)
+            u, v = g.tok(sid)
+            prog.append((INS, [sid, rng.randrange(first_new, g.nh), u, v]))
+        g.hist.append((LEXEC, encode_ops(prog)))
+        if rng.random() < 0.3 and g.live:
+            sid = rng.choice(g.regs)
+            u, v = g.tok(sid)
+            g.hist.append((LINS, [sid, rng.choice(g.live), u, v]))
+        g.hist.append((wg.M, []))
+        for sid in g.regs:
+            g.hist.append((MSK, [sid]))
+        for h in range(first_new, g.nh):
+            for sid in g.regs:
+                g.hist.append((GET, [sid, h]))
+    g.hist.append((wg.PROBE, []))
+    g.hist.append((DROPW, []))
+    return g.hist
